@@ -200,6 +200,10 @@ func (b *BitMatrix) GetRow(y int, row *BitArray) *BitArray {
 func (b *BitMatrix) SetRow(y int, row *BitArray) {
 	offset := y * b.rowSize
 	copy(b.bits[offset:offset+b.rowSize], row.bits)
+	if r := uint(b.width % 32); r != 0 && row.size > b.width {
+		// a longer row must not leave bits beyond the width in the last word
+		b.bits[offset+b.rowSize-1] &= (1 << r) - 1
+	}
 }
 
 func (b *BitMatrix) Rotate180() {
